@@ -1137,6 +1137,10 @@ func init() {
 		// round 5c: every non-pure call of the file, per function and branch
 		c19EmitCallTable(s, e, f)
 		c19EmitBreakerGate(s, e)
+		// round 5e: returns before the script run; the instance's state
+		c19EmitEarly(s, e, f, "RedisLock.AcquireCtx", "acquireEarly")
+		c19EmitEarly(s, e, f, "RedisLock.ReleaseCtx", "releaseEarly")
+		c19EmitLockFields(s, e, f)
 
 		for _, l := range []struct{ file, lean string }{{"core/stores/redis/lockscript.lua", "lockLua"}, {"core/stores/redis/delscript.lua", "delLua"}} {
 			raw, err := os.ReadFile(filepath.Join(*repo, l.file))
@@ -1574,4 +1578,94 @@ func c19EmitBreakerGate(s *source, e *emitter) {
 		})
 	}
 	e.stringList("breakerProcessHook", "statements of the closure returned by breakerHook.ProcessHook", body)
+}
+
+// C19 round 5e: what can happen BEFORE the script run of AcquireCtx / ReleaseCtx.  Every `if` with a `return` in
+// front of the `resp, err := ….ScriptRunCtx(…)` statement becomes a branch of a Lean function over opaque condition
+// values (`cs[k]` = the k-th such condition): `some (result, error?)` = the call returns there WITHOUT asking Redis.
+// The code that exists has none: the function is constantly `none` (Tie: for all condition values).  Other
+// statements before the script run must be plain `:=` definitions.
+func c19EmitEarly(s *source, e *emitter, rel, goName, lean string) {
+	head := fmt.Sprintf("def %s (cs : List Bool) : Option (Bool × Bool)", lean)
+	fd := s.findFunc(rel, goName)
+	if fd == nil {
+		e.errors = append(e.errors, goName+" not found")
+		e.printf("%s := some (false, false)\n\n", head)
+		return
+	}
+	var pre []ast.Stmt
+	found := false
+	for i, st := range fd.Body.List {
+		if as, ok := st.(*ast.AssignStmt); ok && len(as.Rhs) == 1 {
+			if c, ok := as.Rhs[0].(*ast.CallExpr); ok && strings.HasSuffix(s.src(c.Fun), ".ScriptRunCtx") {
+				pre, found = fd.Body.List[:i], true
+				break
+			}
+		}
+	}
+	if !found {
+		e.errors = append(e.errors, goName+": no script run statement")
+		e.printf("%s := some (false, false)\n\n", head)
+		return
+	}
+	term := "none"
+	var conds []string
+	k := 0
+	var parts []string
+	for _, st := range pre {
+		switch x := st.(type) {
+		case *ast.AssignStmt:
+			if x.Tok.String() != ":=" {
+				e.errors = append(e.errors, goName+": assignment before the script run: "+s.src(st))
+			}
+		case *ast.IfStmt:
+			hasRet := false
+			res := "(false, false)"
+			ast.Inspect(x, func(n ast.Node) bool {
+				if r, ok := n.(*ast.ReturnStmt); ok {
+					hasRet = true
+					if len(r.Results) == 2 {
+						b := s.src(r.Results[0]) == "true"
+						er := s.src(r.Results[1]) != "nil"
+						res = fmt.Sprintf("(%v, %v)", b, er)
+					}
+				}
+				return true
+			})
+			if hasRet {
+				parts = append(parts, fmt.Sprintf("if cs.getD %d false then some %s else ", k, res))
+				conds = append(conds, strings.Join(strings.Fields(s.src(x.Cond)), " "))
+				k++
+			} else {
+				e.errors = append(e.errors, goName+": statement before the script run outside the subset: "+s.src(st))
+			}
+		default:
+			e.errors = append(e.errors, goName+": statement before the script run outside the subset: "+s.src(st))
+		}
+	}
+	term = strings.Join(parts, "") + "none"
+	e.printf("/-- returns of `%s` BEFORE its script run, over the values of the conditions %v: `some r` = the call answers r without asking Redis -/\n%s := %s\n\n", goName, conds, head, term)
+}
+
+// the fields of the RedisLock struct: (name, type) — all the state an instance has
+func c19EmitLockFields(s *source, e *emitter, rel string) {
+	var items []string
+	if file := s.file(rel); file != nil {
+		ast.Inspect(file, func(n ast.Node) bool {
+			if ts, ok := n.(*ast.TypeSpec); ok && ts.Name.Name == "RedisLock" {
+				if st, ok := ts.Type.(*ast.StructType); ok {
+					for _, fl := range st.Fields.List {
+						if len(fl.Names) == 0 {
+							items = append(items, fmt.Sprintf("(\"\", %s)", leanString(s.src(fl.Type))))
+						}
+						for _, nm := range fl.Names {
+							items = append(items, fmt.Sprintf("(%s, %s)", leanString(nm.Name), leanString(s.src(fl.Type))))
+						}
+					}
+				}
+			}
+			return true
+		})
+	}
+	e.printf("/-- fields of `RedisLock` (name, type): all the state of an instance -/\ndef lockFields : List (String × String) := [%s]\n\n", strings.Join(items, ", "))
 }
